@@ -277,4 +277,170 @@ Section RoundTrip.
       rewrite frev_rev, rev_append_rev, rev_app_distr, rev_involutive. cbn [rev app]. reflexivity.
     - rewrite frev_rev, rev_append_rev, rev_app_distr, rev_involutive. cbn [rev app]. reflexivity.
   Qed.
+
+  (* ----------------------------------------------------------------------------------------- *)
+  (* C12: concatenated streams and stream padding *)
+
+  Lemma xz_skip_zeros_app k : forall l n, xz_skip_zeros (repeatn 0 k ++ l) n = xz_skip_zeros l (n + Z.of_nat k).
+  Proof.
+    induction k as [|k IH]; intros l n.
+    - cbn [repeatn app]. f_equal. lia.
+    - cbn [repeatn app xz_skip_zeros Z.eqb]. rewrite IH. f_equal. lia.
+  Qed.
+
+  Lemma try_next_end p : 0 <= p ->
+    xz_try_next_stream xz_fixed (repeatn 0 (Z.to_nat p)) =
+    if p mod 4 =? 0 then Ok (None, []) else Err E_INVALID_DATA.
+  Proof.
+    intros Hp. unfold xz_try_next_stream.
+    replace (repeatn 0 (Z.to_nat p)) with (repeatn 0 (Z.to_nat p) ++ []) by apply app_nil_r.
+    rewrite xz_skip_zeros_app. cbn [xz_skip_zeros fx16b xz_fixed andb]. rewrite Z2Nat.id by lia. cbn [Z.add].
+    destruct (p mod 4 =? 0); reflexivity.
+  Qed.
+
+  Lemma try_next_stream_header p ct X : 0 <= p -> check_known ct = true ->
+    xz_try_next_stream xz_fixed (repeatn 0 (Z.to_nat p) ++ xz_stream_header ct ++ X) =
+    if p mod 4 =? 0 then Ok (Some ct, X) else Err E_INVALID_DATA.
+  Proof.
+    intros Hp Hk. set (Y := xz_stream_flags ct ++ crc32_bytes (xz_stream_flags ct) ++ X).
+    assert (EY : xz_stream_header ct ++ X = 253 :: 55 :: 122 :: 88 :: 90 :: 0 :: Y).
+    { unfold xz_stream_header, XZ_MAGIC, Y. rewrite <- !app_assoc. reflexivity. }
+    rewrite EY. unfold xz_try_next_stream. rewrite xz_skip_zeros_app, Z2Nat.id by lia.
+    cbn [xz_skip_zeros]. change (253 =? 0) with false. cbv iota. cbn [fx16 xz_fixed].
+    change (253 =? 253) with true. cbn [negb].
+    rewrite !zlen_cons. pose proof (zlen_nonneg Y).
+    destruct (Z.ltb_spec (1 + (1 + (1 + (1 + (1 + zlen Y))))) 5); [lia|].
+    cbn [firstn skipn]. change (bytes_eqb [253; 55; 122; 88; 90; 0] XZ_MAGIC) with true. cbn [negb].
+    replace (0 + p) with p by lia.
+    destruct (p mod 4 =? 0); cbn [negb]; [|reflexivity].
+    unfold Y. rewrite xz_parse_flags_crc_ok by exact Hk. reflexivity.
+  Qed.
+
+  Lemma try_next_garbage p b X : 0 <= p -> b <> 0 -> b <> 253 ->
+    xz_try_next_stream xz_fixed (repeatn 0 (Z.to_nat p) ++ b :: X) = Err E_INVALID_DATA.
+  Proof.
+    intros Hp H0 H253. unfold xz_try_next_stream. rewrite xz_skip_zeros_app.
+    cbn [xz_skip_zeros]. destruct (Z.eqb_spec b 0); [contradiction|].
+    cbn [fx16 xz_fixed]. destruct (Z.eqb_spec b 253); [contradiction | reflexivity].
+  Qed.
+
+  (* a stream as the writer produced it, and the padding that follows it in the file *)
+  Record xzstream := mkXzstream { st_opts : xzopts; st_parts : list (list Z); st_file : list Z; st_pad : Z }.
+  Definition st_ok (s : xzstream) : Prop :=
+    stream_ok (st_opts s) /\ xz_encode xz_fixed (st_opts s) (st_parts s) = Ok (st_file s) /\ 0 <= st_pad s.
+  Definition st_bytes (s : xzstream) : list Z := st_file s ++ repeatn 0 (Z.to_nat (st_pad s)).
+  Definition xz_file (ss : list xzstream) : list Z := concat (map st_bytes ss).
+  Definition xz_content (ss : list xzstream) : list Z := concat (map (fun s => concat (st_parts s)) ss).
+
+  Lemma xz_file_len ss : Forall st_ok ss -> zlen ss <= zlen (xz_file ss).
+  Proof.
+    induction ss as [|s t IH]; intros Hok; [cbn; lia|]. inversion Hok as [|x l Hs Ht]; subst x l.
+    unfold xz_file. cbn [map concat]. fold (xz_file t). rewrite zlen_cons, zlen_app. specialize (IH Ht).
+    destruct Hs as (Hso & He & Hp). destruct (xzd_stream_rt _ _ _ Hso He) as (body & Ef & _ & Lb & _).
+    unfold st_bytes. rewrite zlen_app, Ef, zlen_app, zlen_stream_header.
+    pose proof (zlen_nonneg (repeatn 0 (Z.to_nat (st_pad s)))). lia.
+  Qed.
+
+  (* the reader positioned after the header of stream s; what follows is the rest of the file *)
+  Lemma xz_multi_run : forall t s body fuel pos acc,
+    st_ok s -> Forall st_ok t -> Forall (fun x => st_pad x mod 4 = 0) (s :: t) ->
+    st_file s = xz_stream_header (xo_check (st_opts s)) ++ body ->
+    pos mod 4 = 0 -> (length t < fuel)%nat ->
+    xzd_streams' fuel xz_fixed true (xo_check (st_opts s))
+       (body ++ repeatn 0 (Z.to_nat (st_pad s)) ++ xz_file t) pos acc
+    = Ok (frev (rev_append (xz_content (s :: t)) acc), []).
+  Proof.
+    induction t as [|s2 t IH]; intros s body fuel pos acc Hs Ht Hpads Ef Hpos Hf.
+    - destruct Hs as (Hso & He & Hp). inversion Hpads as [|x l Hp4 _]; subst x l.
+      destruct (xzd_stream_rt _ _ _ Hso He) as (body' & Ef' & _ & _ & S).
+      assert (body' = body) by (rewrite Ef' in Ef; apply app_inv_head in Ef; exact Ef). subst body'.
+      destruct fuel as [|fuel]; [cbn in Hf; lia|].
+      destruct (S fuel true (repeatn 0 (Z.to_nat (st_pad s)) ++ xz_file []) pos acc Hpos) as (pos1 & _ & ES).
+      rewrite ES. unfold xz_file. cbn [map concat]. rewrite app_nil_r.
+      rewrite try_next_end by exact Hp. rewrite Hp4. cbn [Z.eqb obind fst snd].
+      unfold xz_content. cbn [map concat]. rewrite app_nil_r. reflexivity.
+    - destruct Hs as (Hso & He & Hp). inversion Hpads as [|x l Hp4 Hpads']; subst x l.
+      inversion Ht as [|x l Hs2 Ht']; subst x l.
+      destruct (xzd_stream_rt _ _ _ Hso He) as (body' & Ef' & _ & _ & S).
+      assert (body' = body) by (rewrite Ef' in Ef; apply app_inv_head in Ef; exact Ef). subst body'.
+      destruct fuel as [|fuel]; [cbn in Hf; lia|].
+      destruct (S fuel true (repeatn 0 (Z.to_nat (st_pad s)) ++ xz_file (s2 :: t)) pos acc Hpos) as (pos1 & Hp1 & ES).
+      rewrite ES. clear ES S.
+      pose proof Hs2 as (Hso2 & He2 & Hp2).
+      destruct (xzd_stream_rt _ _ _ Hso2 He2) as (body2 & Ef2 & Mb2 & _ & _).
+      assert (Efile : xz_file (s2 :: t) = xz_stream_header (xo_check (st_opts s2)) ++
+                                          (body2 ++ repeatn 0 (Z.to_nat (st_pad s2)) ++ xz_file t)).
+      { unfold xz_file. cbn [map concat]. unfold st_bytes. rewrite Ef2, <- !app_assoc. reflexivity. }
+      rewrite Efile. destruct Hso2 as [[Hk2 _] _].
+      rewrite try_next_stream_header by assumption. rewrite Hp4. cbn [Z.eqb obind fst snd].
+      rewrite IH; try assumption.
+      + unfold xz_content. cbn [map concat]. rewrite !frev_rev, !rev_append_rev.
+        repeat rewrite ?rev_app_distr, ?rev_involutive, <- ?app_assoc. reflexivity.
+      + rewrite !zlen_app, zlen_repeatn, zlen_stream_header. lia.
+      + cbn [length] in Hf. lia.
+  Qed.
+
+  (* C12 (XZ): with multi-stream decoding enabled, any number of complete streams, each followed by
+     stream padding of any multiple of four null bytes, decodes to the concatenation of the contents *)
+  Theorem xz_multi_thm : forall s t, Forall st_ok (s :: t) -> Forall (fun x => st_pad x mod 4 = 0) (s :: t) ->
+    xz_decode' xz_fixed true (xz_file (s :: t)) = Ok (xz_content (s :: t), []).
+  Proof.
+    intros s t Hok Hpads. inversion Hok as [|x l Hs Ht]; subst x l.
+    pose proof Hs as (Hso & He & Hp). pose proof Hso as [[Hk _] _].
+    destruct (xzd_stream_rt _ _ _ Hso He) as (body & Ef & Mb & _ & _).
+    assert (Efile : xz_file (s :: t) = xz_stream_header (xo_check (st_opts s)) ++
+                                       (body ++ repeatn 0 (Z.to_nat (st_pad s)) ++ xz_file t)).
+    { unfold xz_file. cbn [map concat]. unfold st_bytes. rewrite Ef, <- !app_assoc. reflexivity. }
+    unfold xz_decode. rewrite Efile, xz_parse_stream_header_ok by exact Hk. cbn [obind].
+    rewrite xz_multi_run with (body := body); try assumption.
+    - rewrite frev_rev, rev_append_rev, rev_app_distr, rev_involutive. cbn [rev app]. reflexivity.
+    - rewrite zlen_app, zlen_stream_header. lia.
+    - apply zlen_length_lt. rewrite Nat2Z.inj_succ. rewrite <- Efile. fold (zlen (xz_file (s :: t))).
+      pose proof (xz_file_len (s :: t) Hok). rewrite zlen_cons in H. lia.
+  Qed.
+
+  (* malformed stream padding (not a multiple of four bytes) after a stream is rejected, whether the
+     file ends there or another stream follows; so is anything that is neither padding nor a stream *)
+  Theorem xz_multi_bad_padding : forall s rest, st_ok s -> st_pad s mod 4 <> 0 ->
+    (rest = [] \/ exists ct X, check_known ct = true /\ rest = xz_stream_header ct ++ X) ->
+    xz_decode' xz_fixed true (st_bytes s ++ rest) = Err E_INVALID_DATA.
+  Proof.
+    intros s rest (Hso & He & Hp) Hbad Hrest. pose proof Hso as [[Hk _] _].
+    destruct (xzd_stream_rt _ _ _ Hso He) as (body & Ef & Mb & _ & S).
+    unfold xz_decode, st_bytes. rewrite Ef, <- !app_assoc, xz_parse_stream_header_ok by exact Hk. cbn [obind].
+    set (src := xz_stream_header (xo_check (st_opts s)) ++ body ++ repeatn 0 (Z.to_nat (st_pad s)) ++ rest).
+    destruct (S (length src) true (repeatn 0 (Z.to_nat (st_pad s)) ++ rest)
+                (zlen src - zlen (body ++ repeatn 0 (Z.to_nat (st_pad s)) ++ rest)) []) as (pos1 & _ & ES).
+    { unfold src. rewrite zlen_app, zlen_stream_header. lia. }
+    rewrite ES. destruct Hrest as [->|(ct & X & Hkc & ->)].
+    - rewrite app_nil_r, try_next_end by exact Hp. destruct (Z.eqb_spec (st_pad s mod 4) 0); [contradiction | reflexivity].
+    - rewrite try_next_stream_header by assumption. destruct (Z.eqb_spec (st_pad s mod 4) 0); [contradiction | reflexivity].
+  Qed.
+
+  Theorem xz_multi_garbage : forall s b X, st_ok s -> b <> 0 -> b <> 253 ->
+    xz_decode' xz_fixed true (st_bytes s ++ b :: X) = Err E_INVALID_DATA.
+  Proof.
+    intros s b X (Hso & He & Hp) H0 H253. pose proof Hso as [[Hk _] _].
+    destruct (xzd_stream_rt _ _ _ Hso He) as (body & Ef & Mb & _ & S).
+    unfold xz_decode, st_bytes. rewrite Ef, <- !app_assoc, xz_parse_stream_header_ok by exact Hk. cbn [obind].
+    set (src := xz_stream_header (xo_check (st_opts s)) ++ body ++ repeatn 0 (Z.to_nat (st_pad s)) ++ b :: X).
+    destruct (S (length src) true (repeatn 0 (Z.to_nat (st_pad s)) ++ b :: X)
+                (zlen src - zlen (body ++ repeatn 0 (Z.to_nat (st_pad s)) ++ b :: X)) []) as (pos1 & _ & ES).
+    { unfold src. rewrite zlen_app, zlen_stream_header. lia. }
+    rewrite ES, try_next_garbage by assumption. reflexivity.
+  Qed.
+
+  (* with multi-stream decoding disabled the reader returns the first stream's content and leaves
+     the source at the first byte after that stream (C12, C16) *)
+  Theorem xz_single_stops : forall o0 parts f rest, stream_ok o0 -> xz_encode xz_fixed o0 parts = Ok f ->
+    xz_decode' xz_fixed false (f ++ rest) = Ok (concat parts, rest).
+  Proof.
+    intros o0 parts f rest Hso He. pose proof Hso as [[Hk _] _].
+    destruct (xzd_stream_rt _ _ _ Hso He) as (body & Ef & Mb & _ & S).
+    unfold xz_decode. rewrite Ef, <- app_assoc, xz_parse_stream_header_ok by exact Hk. cbn [obind].
+    set (src := xz_stream_header (xo_check o0) ++ body ++ rest).
+    destruct (S (length src) false rest (zlen src - zlen (body ++ rest)) []) as (pos1 & _ & ES).
+    { unfold src. rewrite zlen_app, zlen_stream_header. lia. }
+    rewrite ES. rewrite frev_rev, rev_append_rev, rev_app_distr, rev_involutive. cbn [rev app]. reflexivity.
+  Qed.
 End RoundTrip.
